@@ -1113,8 +1113,13 @@ fn bespoke_catalogue() -> Vec<Bespoke> {
                 vec![vec!["-o"]],
                 vec![vec!["+o"]],
                 vec![vec!["a", "-e"], vec!["--", "a", "-e"]],
+                // `log` is a full name and a prefix of `login`: the full name wins
+                vec![vec!["-o", "log"], vec!["--log"], vec!["-olog"], vec!["-o", "log", "--", "p1", "p2", "p3"]],
+                vec![vec!["-o", "vi"], vec!["--vi"], vec!["-ovi"]],
             ],
             malformed: vec![
+                vec!["-o", "lo"],
+                vec!["--lo"],
                 vec!["-Z"],
                 vec!["-eZ"],
                 vec!["-o", "nosuchoption"],
@@ -1307,9 +1312,12 @@ fn cli_stream(w: &mut CasesWriter) {
         vec![vec!["--noprofile", "--norcfile", "-c", "S"], vec!["--noprof", "--norc", "-c", "S"]],
         vec![vec!["-i", "-l", "-c", "S"], vec!["-il", "-c", "S"], vec!["--interactive", "--login", "-c", "S"], vec!["-ilc", "S"]],
         vec![vec!["--help"], vec!["--hel"]],
+        vec![vec!["-o", "log", "-c", "S"], vec!["--log", "-c", "S"], vec!["-olog", "-c", "S"]],
         vec![vec!["--version"], vec!["-V"], vec!["--vers"]],
     ];
     let malformed: Vec<Vec<&str>> = vec![
+        vec!["-o", "lo", "-c", "S"],
+        vec!["--lo", "-c", "S"],
         vec!["-Z", "-c", "S"],
         vec!["-eZ", "-c", "S"],
         vec!["--nosuchoption", "-c", "S"],
